@@ -138,6 +138,11 @@ class Schema:
             raise AnalysisError(f"{ci.name}.{which} is not a literal list: {v!r}")
         out = []
         for g in v:
+            if isinstance(g, str):
+                # a group that IS a string (`("wirers", "wirecanrs")` for `(("wirers", "wirecanrs"),)`): the validator
+                # iterates it letter by letter - S-R3 reports its 'members' as undeclared children
+                out.append(list(g))
+                continue
             if not isinstance(g, (list, tuple)) or not all(isinstance(x, str) for x in g):
                 raise AnalysisError(f"{ci.name}.{which} has a non-literal group: {g!r}")
             out.append(list(g))
